@@ -12,6 +12,9 @@ use std::collections::BTreeMap;
 #[derive(Default, Debug, Clone)]
 pub struct Totals {
     known: BTreeMap<String, (f64, f64)>,
+    /// the same totals with each unit's standard definition from the independent table (where it has one) instead of
+    /// the converter's own ratio: a converter whose definitions are wrong conserves "its" amounts and still loses flour
+    known_by_table: BTreeMap<String, (f64, f64)>,
     unknown: BTreeMap<String, (f64, f64)>,
     unitless: (f64, f64),
     texts: Vec<(String, Option<String>)>,
@@ -40,6 +43,13 @@ impl Totals {
                     let e = self.known.entry(unit.physical_quantity.to_string()).or_insert((0.0, 0.0));
                     e.0 += b(lo);
                     e.1 += b(hi);
+                    let (f, o) = match crate::units::def_by_symbol(unit.symbol()) {
+                        Some(d) if d.q == unit.physical_quantity => (d.factor, d.offset),
+                        _ => (unit.ratio, unit.difference),
+                    };
+                    let e = self.known_by_table.entry(unit.physical_quantity.to_string()).or_insert((0.0, 0.0));
+                    e.0 += (lo + o) * f;
+                    e.1 += (hi + o) * f;
                 }
                 None => {
                     let e = self.unknown.entry(u.to_string()).or_insert((0.0, 0.0));
@@ -60,6 +70,11 @@ impl Totals {
     pub fn merge(&mut self, o: &Totals) {
         for (k, v) in &o.known {
             let e = self.known.entry(k.clone()).or_insert((0.0, 0.0));
+            e.0 += v.0;
+            e.1 += v.1;
+        }
+        for (k, v) in &o.known_by_table {
+            let e = self.known_by_table.entry(k.clone()).or_insert((0.0, 0.0));
             e.0 += v.0;
             e.1 += v.1;
         }
@@ -90,6 +105,15 @@ impl Totals {
         if let Some(d) = cmp("quantity", &self.known, &o.known) {
             return Some(d);
         }
+        // by the standard definitions: the shipped ratios carry 9 significant digits, hence the wider tolerance
+        for k in self.known_by_table.keys().chain(o.known_by_table.keys()) {
+            let x = self.known_by_table.get(k).copied().unwrap_or((0.0, 0.0));
+            let y = o.known_by_table.get(k).copied().unwrap_or((0.0, 0.0));
+            let close_t = |a: f64, b: f64| (a - b).abs() <= 1e-6 * a.abs().max(b.abs()).max(1e-12);
+            if !close_t(x.0, y.0) || !close_t(x.1, y.1) {
+                return Some(format!("quantity {k:?} by the standard unit definitions: inputs total {x:?}, outputs total {y:?}"));
+            }
+        }
         if let Some(d) = cmp("unknown unit", &self.unknown, &o.unknown) {
             return Some(d);
         }
@@ -103,7 +127,7 @@ impl Totals {
     }
 }
 
-const UNITS: &[Option<&str>] = &[Some("g"), Some("kg"), Some("oz"), Some("lb"), Some("ml"), Some("l"), Some("cup"), Some("tsp"), Some("min"), Some("h"), Some("pinch"), Some("cans"), Some("x"), None, None, Some("T"), Some("t"), Some("Cans")];
+const UNITS: &[Option<&str>] = &[Some("g"), Some("kg"), Some("oz"), Some("lb"), Some("ml"), Some("l"), Some("cup"), Some("tsp"), Some("min"), Some("h"), Some("pinch"), Some("cans"), Some("x"), None, None, Some("T"), Some("t"), Some("Cans"), Some("dl"), Some("dag"), Some("cl"), Some("hg")];
 
 fn rand_quantity(r: &mut Rng) -> ScaledQuantity {
     let num = |r: &mut Rng| -> Number {
